@@ -2,7 +2,7 @@ use std::fmt::{Result as FmtResult, Write as FmtWrite};
 
 use super::{Stringifier, Stringify};
 use crate::{
-    escape::gen_lit_str,
+    escape::gen_expr_lit_str,
     parse::expr::{ArrayFieldKind, Expression, ObjectFieldKind},
 };
 
@@ -106,7 +106,7 @@ fn expression_strigify_write<'s, W: FmtWrite>(
             stringifier.write_token("null", None, location)?;
         }
         Expression::LitStr { value, location } => {
-            let quoted = gen_lit_str(&value);
+            let quoted = gen_expr_lit_str(&value);
             stringifier.write_token(&format!(r#"{}"#, quoted), None, &location)?;
         }
         Expression::LitInt { value, location } => {
